@@ -118,7 +118,7 @@ EXTRA_MODULES = {
     "C14": ["CodeLimit.Props.C14b"],
     "C01": ["CodeLimit.Lemmas.GenTie", "CodeLimit.Props.C01disc", "CodeLimit.Props.C01py", "CodeLimit.Props.C01syn",
             "CodeLimit.Props.C01tree", "CodeLimit.Props.C01pyfull", "CodeLimit.Props.C01text", "CodeLimit.Props.C01full",
-            "CodeLimit.Props.C01arrow", "CodeLimit.Props.C01marks", "CodeLimit.Props.C01pytext"],
+            "CodeLimit.Props.C01arrow", "CodeLimit.Props.C01marks", "CodeLimit.Props.C01pytext", "CodeLimit.Props.C01marktext"],
     "C03": ["CodeLimit.Lemmas.GenTie"],
     "C04": ["CodeLimit.Lemmas.GenTie", "CodeLimit.Props.C01marks"],
     "C05": ["CodeLimit.Lemmas.GenTie", "CodeLimit.Props.C05text"],
